@@ -476,6 +476,7 @@ class Credits(Mode):
             desc: Credits have just been added to the machine, but the
             configured maximum number of credits has been reached.'''
             self.machine.variables.set_machine_var('credit_units', max_credit_units)
+            total_credit_units = max_credit_units
 
         if max_credit_units <= 0 or max_credit_units > previous_credit_units:
             self.info_log("Credit units added")
